@@ -79,6 +79,64 @@ impl Sched {
     }
 }
 
+/// Systematic exploration: replays a prefix of scheduling decisions, then always takes the first
+/// option, and logs (number of options, option taken) so that the caller can enumerate all
+/// schedules depth-first (no spurious wake-ups; every dispatch and every `notify_one` choice).
+pub fn exhaustive_chooser(
+    prefix: Vec<usize>,
+    log: std::sync::Arc<std::sync::Mutex<Vec<(usize, usize)>>>,
+) -> Box<dyn FnMut(&View) -> (usize, Option<usize>) + Send> {
+    let mut pos = 0usize;
+    Box::new(move |v: &View| {
+        let n = v.enabled.len().max(1);
+        let c = if pos < prefix.len() { prefix[pos].min(n - 1) } else { 0 };
+        pos += 1;
+        log.lock().unwrap().push((n, c));
+        (c, None)
+    })
+}
+
+/// next prefix in depth-first order, or None when all schedules have been explored
+pub fn next_prefix(log: &[(usize, usize)]) -> Option<Vec<usize>> {
+    let mut l: Vec<(usize, usize)> = log.to_vec();
+    while let Some((n, c)) = l.pop() {
+        if c + 1 < n {
+            let mut p: Vec<usize> = l.iter().map(|x| x.1).collect();
+            p.push(c + 1);
+            return Some(p);
+        }
+    }
+    None
+}
+
+pub fn run_tree_with(tree: &Arc<Tree>, threads: u32, chooser: Box<dyn FnMut(&View) -> (usize, Option<usize>) + Send>, max_steps: usize) -> RunOut<u32> {
+    let t2 = tree.clone();
+    let out = sched::run(chooser, max_steps, move || {
+        bab_solve(
+            move |n: N| -> NodeResult<N, u32, u32> {
+                match &t2.nodes[n.1 as usize].1 {
+                    Kind::NoSol => NodeResult::NoSolution,
+                    Kind::Feasible(s) => NodeResult::Feasible(n.1, *s),
+                    Kind::Infeasible(kids, s) => NodeResult::Infeasible(kids.iter().map(|k| N(n.0 + 1, *k)).collect(), *s),
+                    Kind::Panic => panic!("node solver failed"),
+                }
+            },
+            N(0, 0),
+            threads,
+        )
+    });
+    let budget = out.trace.iter().any(|e| matches!(e, Event::Budget));
+    let deadlock = out.trace.iter().any(|e| matches!(e, Event::Deadlock));
+    RunOut {
+        result: out.result.map_err(|e| if let Some(s) = e.downcast_ref::<&str>() { s.to_string() } else if let Some(s) = e.downcast_ref::<String>() { s.clone() } else { "panic".to_string() }),
+        trace: out.trace,
+        deadlock,
+        budget,
+        steps: out.steps,
+        leftover: out.leftover,
+    }
+}
+
 pub struct RunOut<S> {
     pub result: Result<(Option<(S, u32)>, Statistics), String>,
     pub trace: Vec<Event>,
